@@ -678,6 +678,19 @@ def _record_identity(k, swap):
     from moPepGen.SeqFeature import FeatureLocation
     from moPepGen.seqvar.VariantRecord import VariantRecord
 
+    class _Rec2(VariantRecord):
+        """real identity (__hash__ / __eq__ inherited); coordinate conversion stubbed"""
+        __hash__ = VariantRecord.__hash__
+
+        def is_spanning_over_splicing_site(self, anno, tx_id):
+            return False
+
+        def to_transcript_variant(self, anno, genome, tx_id=None, cached_seqs=None):
+            return self
+
+        def shift_deletion_up(self, seq):
+            return None
+
     def mk(delta):
         attrs = {'TRANSCRIPT_ID': 'T1', 'GENE_ID': 'G1'}
         for i, name in enumerate(_ID_ATTRS):
@@ -687,23 +700,39 @@ def _record_identity(k, swap):
         ref = ('C' if delta == 2 else 'A') * (end - start)
         alt = '<SUB>' if delta == 3 else '<INS>'
         typ = 'Substitution' if delta == 4 else 'Insertion'
-        return VariantRecord(location=FeatureLocation(seqname='G1', start=start, end=end), ref=ref, alt=alt, _type=typ,
-                             _id='X', attrs=attrs)
+        return _Rec2(location=FeatureLocation(seqname='G1', start=start, end=end), ref=ref, alt=alt, _type=typ,
+                     _id='X', attrs=attrs)
 
     r1, r2 = mk(-1), mk(k)
     items = [r2, r1] if swap else [r1, r2]
     from crosshair.tracers import NoTracing
+    from moPepGen.seqvar.VariantRecordPoolOnDisk import VariantRecordPoolOnDisk
+
+    class _Ptr:
+        is_circ_rna = False            # attribute of the real GVFPointer
+
+        def __init__(self, records):
+            self.records = records
+
+        def load(self):
+            return list(self.records)
+
     with NoTracing():
-        # all fields are concrete here; CrossHair's own hash() patch does not reproduce CPython's tuple hash
-        n = len(set(items))
+        # all fields are concrete here; CrossHair's own hash() patch does not reproduce CPython's tuple hash.
+        # The two records come from two GVF files (one pointer each, in either order) and are united by the real
+        # VariantRecordPoolOnDisk.__getitem__; conversion to transcript coordinates is stubbed (identity)
+        pool = VariantRecordPoolOnDisk(pointers={'T1': [_Ptr([items[0]]), _Ptr([items[1]])]}, gvf_files=[], anno=None,
+                                       genome=None)
+        n = len(pool['T1'].transcriptional)
     if k == 10:
         return OK if n == 1 else -1
     return OK if n == 2 else -2
 
 
 @cond('C06', bounds='two alternative-splicing records that are identical except for ONE of the 10 fields that define the event '
-      '(start, end, REF, ALT, type, donor transcript, START/END, DONOR_START/DONOR_END) or not at all, in either order', encodes=['moPepGen.seqvar.VariantRecord.VariantRecord.__hash__ / __eq__ (as used by '
-      'VariantRecordPoolOnDisk.__getitem__: records = set(records))'],
+      '(start, end, REF, ALT, type, donor transcript, START/END, DONOR_START/DONOR_END) or not at all, in either order', encodes=['moPepGen.seqvar.VariantRecordPoolOnDisk.VariantRecordPoolOnDisk.__getitem__ (union of the records of all '
+      'files)', 'moPepGen.seqvar.VariantRecord.VariantRecord.__hash__ / __eq__'],
+      stubs=['GVF pointers -> in-memory records', 'to_transcript_variant / is_spanning_over_splicing_site -> identity / False'],
       codes={-1: 'two identical records are both kept (duplicate events across GVF files)',
              -2: 'two records that differ in an identifying field collapse into one when merged through set(): which '
                  'event survives would depend on the order of the GVF files'}, shim=True, timeout=200)
@@ -713,3 +742,82 @@ def c06_record_identity(k: int, swap: bool) -> int:
     post: _ >= 0
     """
     return _record_identity(concretize(k, 0, 10), swap)
+
+
+# --------------------------------------------------------------------------
+# opening several GVF files: every .idx that exists is validated against its GVF before it is used
+# --------------------------------------------------------------------------
+class _FakeIdx:
+    def __init__(self, name, present):
+        self.name, self.present = name, present
+
+    def exists(self):
+        return self.present
+
+
+class _FakeGvf:
+    suffix = '.gvf'
+
+    def __init__(self, i, has_idx):
+        self.i, self.has_idx = i, has_idx
+
+    def open(self, mode='rb'):
+        return f'H{self.i}'
+
+    def with_suffix(self, suffix):
+        return _FakeIdx(f'f{self.i}{suffix}', self.has_idx)
+
+
+def _opener(has_idx, stale):
+    """three GVF files, each with / without an .idx; an .idx may be stale (validate_gvf_index raises)"""
+    from moPepGen.seqvar.VariantRecordPoolOnDisk import VariantRecordPoolOnDisk, VariantRecordPoolOnDiskOpener
+    files = [_FakeGvf(i, has_idx[i]) for i in range(3)]
+    log = []
+
+    class _Pool(VariantRecordPoolOnDisk):
+        def validate_gvf_index(self, gvf_file, idx_file):
+            log.append(('V', gvf_file.i))
+            if stale[gvf_file.i]:
+                raise ValueError('GVF file and index do not match')
+
+        def load_index(self, index_file, gvf_file, gvf_handle):
+            log.append(('L', gvf_file.i))
+
+        def generate_index(self, gvf_file, gvf_handle):
+            log.append(('G', gvf_file.i))
+
+    pool = _Pool(gvf_files=files)
+    first_stale = None
+    for i in range(3):
+        if has_idx[i] and stale[i]:
+            first_stale = i
+            break
+    try:
+        VariantRecordPoolOnDiskOpener(pool).open()
+    except ValueError:
+        if first_stale is None:
+            return -1              # rejected although every index matches
+        if ('L', first_stale) in log:
+            return -2              # the stale index was loaded before being rejected
+        return OK
+    if first_stale is not None:
+        return -3                  # an .idx that does not correspond to its GVF was used
+    for i in range(3):
+        want = [('V', i), ('L', i)] if has_idx[i] else [('G', i)]
+        got = [e for e in log if e[1] == i]
+        if got != want:
+            return -4              # a file was not indexed exactly once / its index was not validated before use
+    return OK
+
+
+@cond('C13', bounds='three GVF files, each with or without an .idx, each .idx matching or stale (every combination)',
+      encodes=['moPepGen.seqvar.VariantRecordPoolOnDisk.VariantRecordPoolOnDiskOpener.open'],
+      stubs=['Path objects, validate_gvf_index (decided by c13_stale_index) / load_index / generate_index -> recorders'],
+      codes={-1: 'files rejected although every index matches', -2: 'a stale index was loaded before being rejected',
+             -3: 'an .idx that does not correspond to its GVF was accepted', -4: 'a file was not indexed exactly once, or '
+             'its .idx was used without validation'}, timeout=300)
+def c13_opener_validates_each(i0: bool, i1: bool, i2: bool, s0: bool, s1: bool, s2: bool) -> int:
+    """
+    post: _ >= 0
+    """
+    return _opener([i0, i1, i2], [s0, s1, s2])
